@@ -214,6 +214,34 @@ Fixpoint walk (s : vol) (cur : rres) (parts : list name) : res rres :=
     else Err NotADirectory
   end.
 Definition resolve (s : vol) (parts : list name) : res rres := walk s RRoot parts.
+
+(* '.' and '..' components (FatPath.__init__ lets them through unvalidated): FatDirectory.__getitem__
+   scans the directory in record order, and the first two records of every sub-directory are its
+   own '.' and '..' entries, so they answer before any other entry; the root holds no dot entries.
+   _from_entry opens the directory the entry's first cluster names (0 = the root). *)
+Definition dot_entry (nm : name) (c : N) : entry :=
+  {| e_name := nm; e_alias := nm; e_attr := 16; e_size := 0; e_clu := c; e_nlfn := 0 |}.
+Definition dot_lookup (s : vol) (idx : N) (k : name) : option entry :=
+  if idx =? 0 then None
+  else if FatNames.Model.beq k [46] then Some (dot_entry [46] (d_dot (get_dir s idx)))
+  else if FatNames.Model.beq k [46; 46] then Some (dot_entry [46; 46] (d_dotdot (get_dir s idx)))
+  else None.
+Fixpoint walkd (s : vol) (cur : rres) (parts : list name) : res rres :=
+  match parts with
+  | [] => Ok cur
+  | h :: rest =>
+    if r_isdir cur then
+      match dot_lookup s (r_index cur) (upper h) with
+      | Some d => walkd s (RFound (e_clu d) d) rest
+      | None =>
+        match lookup (upper h) (items_of s (r_index cur)) with
+        | None => Ok RNone
+        | Some e => walkd s (RFound (if is_dir e then e_clu e else r_index cur) e) rest
+        end
+      end
+    else Err NotADirectory
+  end.
+Definition resolved (s : vol) (parts : list name) : res rres := walkd s RRoot parts.
 Definition leaf (parts : list name) : name := last parts [].
 Definition parent (parts : list name) : list name := removelast parts.
 (* FatPath.__init__ *)
